@@ -655,6 +655,88 @@ fn op_exprkind(case: &Value) -> Value {
     }
 }
 
+/// The data type declarations xform_resolve_late_bound_data_decl looks at, in visiting order (names case-folded, hex):
+/// DD,name,simple|enum|struct|none,pos  and  DA,alias,base
+struct DataFacts {
+    out: Vec<String>,
+}
+
+impl Visitor<()> for DataFacts {
+    type Value = ();
+
+    fn visit_data_type_declaration_kind(&mut self, node: &DataTypeDeclarationKind) -> Result<(), ()> {
+        let f = match node {
+            DataTypeDeclarationKind::Simple(n) => format!("DD,{},simple,{}", hx(&n.type_name.name.lower_case().to_string()), n.type_name.name.span.start),
+            DataTypeDeclarationKind::Enumeration(n) => format!("DD,{},enum,{}", hx(&n.type_name.name.lower_case().to_string()), n.type_name.name.span.start),
+            DataTypeDeclarationKind::Structure(n) => format!("DD,{},struct,{}", hx(&n.type_name.name.lower_case().to_string()), n.type_name.name.span.start),
+            DataTypeDeclarationKind::Subrange(n) => format!("DD,{},none,{}", hx(&n.type_name.name.lower_case().to_string()), n.type_name.name.span.start),
+            DataTypeDeclarationKind::Array(n) => format!("DD,{},none,{}", hx(&n.type_name.name.lower_case().to_string()), n.type_name.name.span.start),
+            DataTypeDeclarationKind::StructureInitialization(n) => format!("DD,{},none,{}", hx(&n.type_name.name.lower_case().to_string()), n.type_name.name.span.start),
+            DataTypeDeclarationKind::String(n) => format!("DD,{},none,{}", hx(&n.type_name.name.lower_case().to_string()), n.type_name.name.span.start),
+            DataTypeDeclarationKind::LateBound(n) => format!("DA,{},{}", hx(&n.data_type_name.name.lower_case().to_string()), hx(&n.base_type_name.name.lower_case().to_string())),
+        };
+        self.out.push(f);
+        Ok(())
+    }
+}
+
+/// the kind of every data type declaration of a library, in order
+fn decl_kinds(lib: &Library) -> Vec<String> {
+    struct K {
+        out: Vec<String>,
+    }
+    impl Visitor<()> for K {
+        type Value = ();
+        fn visit_data_type_declaration_kind(&mut self, node: &DataTypeDeclarationKind) -> Result<(), ()> {
+            let (name, k) = match node {
+                DataTypeDeclarationKind::Simple(n) => (&n.type_name, "simple"),
+                DataTypeDeclarationKind::Enumeration(n) => (&n.type_name, "enum"),
+                DataTypeDeclarationKind::Structure(n) => (&n.type_name, "struct"),
+                DataTypeDeclarationKind::Subrange(n) => (&n.type_name, "subrange"),
+                DataTypeDeclarationKind::Array(n) => (&n.type_name, "array"),
+                DataTypeDeclarationKind::StructureInitialization(n) => (&n.type_name, "structinit"),
+                DataTypeDeclarationKind::String(n) => (&n.type_name, "string"),
+                DataTypeDeclarationKind::LateBound(n) => (&n.data_type_name, "latebound"),
+            };
+            self.out.push(format!("{},{}", hx(&name.name.lower_case().to_string()), k));
+            Ok(())
+        }
+    }
+    let mut k = K { out: vec![] };
+    let _ = k.walk(lib);
+    k.out
+}
+
+/// parse every file, join the libraries, apply xform_toposort_declarations when "sort" is set, emit the declarations,
+/// apply xform_resolve_late_bound_data_decl and emit the kinds of the declarations of its result (or its diagnostics)
+fn op_datadecl(case: &Value) -> Value {
+    let (libs, errs) = parse_files(case);
+    let mut library = Library::new();
+    for (_, l) in libs.iter() {
+        library = library.extend(l.clone());
+    }
+    if case.get("sort").and_then(|v| v.as_bool()).unwrap_or(true) {
+        match ironplc_analyzer::verif_hooks::xform("xform_toposort_declarations", library) {
+            Some(Ok(l)) => library = l,
+            Some(Err(ds)) => {
+                let ds: Vec<Value> = ds.iter().map(diag_json).collect();
+                return json!({"parse_errs": errs, "earlier_xform": "xform_toposort_declarations", "xform_diags": ds});
+            }
+            None => return json!({"harness_error": "unknown transformation"}),
+        }
+    }
+    let mut before = DataFacts { out: vec![] };
+    let _ = before.walk(&library);
+    match ironplc_analyzer::verif_hooks::xform("xform_resolve_late_bound_data_decl", library) {
+        Some(Ok(l)) => json!({"parse_errs": errs, "before": before.out, "after": decl_kinds(&l)}),
+        Some(Err(ds)) => {
+            let ds: Vec<Value> = ds.iter().map(diag_json).collect();
+            json!({"parse_errs": errs, "before": before.out, "diags": ds})
+        }
+        None => json!({"harness_error": "unknown transformation"}),
+    }
+}
+
 const FACT_RULES: [&str; 8] = [
     "rule_var_decl_const_initialized",
     "rule_var_decl_const_not_fb",
@@ -859,6 +941,7 @@ fn run_case(case: &Value) -> Value {
         "parse" => op_parse(case),
         "analyze" => op_analyze(case),
         "exprkind" => op_exprkind(case),
+        "datadecl" => op_datadecl(case),
         "project" => op_project(case),
         "events" => op_events(case),
         "facts" => op_facts(case),
